@@ -79,17 +79,38 @@ def run(chk: Check, repo: Repo) -> None:
     if len(heads) != 1:
         raise AnalysisError(f"expected one outer loop head in _run, found {len(heads)}")
     head = heads[0].id
-    # entry reaches the head without events
+    # loop-carried state: explore from every distinct abstract state in which the loop head is reached (fixpoint)
     pre = ex.run(cfg.entry, [head], {})
     chk.ob("entry-to-loop", fi.site(), all(p.end == head and not p.env.get("trace") for p in pre), "function entry reaches the heartbeat loop head without sending anything", key="entry-to-loop")
 
-    paths = ex.run(head, [head], {})
-    chk.count("paths_enumerated", len(paths))
+    def state_of(env):
+        return tuple(sorted((k, repr(v)) for k, v in env.items() if k not in ("trace",) and not k.startswith("#")))
+
+    pending = []
+    seen_states = set()
+    for p in pre:
+        if p.end == head:
+            e = {k: v for k, v in p.env.items() if k != "trace"}
+            if state_of(e) not in seen_states:
+                seen_states.add(state_of(e)); pending.append(e)
     got: dict[tuple, set[str]] = {}
-    for p in paths:
-        tr = p.env.get("trace", ())
-        end = "head" if p.end == head else ("return" if p.end == cfg.exit else "raise")
-        got.setdefault(tuple(tr), set()).add(end)
+    n_paths = 0
+    while pending:
+        if len(seen_states) > 64:
+            raise AnalysisError("heartbeat loop: more than 64 distinct loop-head states (unbounded loop-carried state)")
+        e0 = pending.pop()
+        paths = ex.run(head, [head], dict(e0))
+        n_paths += len(paths)
+        for p in paths:
+            tr = p.env.get("trace", ())
+            end = "head" if p.end == head else ("return" if p.end == cfg.exit else "raise")
+            got.setdefault(tuple(tr), set()).add(end)
+            if p.end == head:
+                e = {k: v for k, v in p.env.items() if k != "trace"}
+                if state_of(e) not in seen_states:
+                    seen_states.add(state_of(e)); pending.append(e)
+    chk.count("paths_enumerated", n_paths)
+    chk.count("loop_head_states", len(seen_states))
 
     S = f"SLEEP({rate})"
     ref: dict[tuple, set[str]] = {}
